@@ -225,6 +225,37 @@ def run(chk):
         else:
             if not np.array_equal(full, Uc[:, :nb]):
                 chk.violation("impl", "custom-not-prefix", "Custom basis is not the first n_basis_modes columns of the supplied matrix", case)
+        # ---- a fit that is REJECTED (too few examples for the modes) and caught by the caller: whatever the basis answers afterwards must
+        #      still be consistent (one column per retained mode, requests beyond them rejected) - the earlier fit or no fit at all
+        if kind in ("Identity", "SVD", "SVD-arpack") and nb is not None and nb >= 2:
+            try:
+                b3 = mk()
+                impl.quiet(b3.fit, X)
+                try:
+                    impl.quiet(b3.fit, X[: nb - 1].copy())
+                    rej = False
+                except Exception:
+                    rej = True
+                if rej:
+                    chk.count("rejected_fit_then_queried")
+                    try:
+                        M3 = np.array(b3.matrix_representation())
+                        ok3 = M3.shape == (n, int(b3.n_basis_modes))
+                        try:
+                            b3.matrix_representation(n_basis_modes=int(b3.n_basis_modes) + 1)
+                            ok3 = False
+                        except ValueError:
+                            pass
+                        Mk3 = np.array(b3.matrix_representation(n_basis_modes=int(b3.n_basis_modes)))
+                        ok3 = ok3 and Mk3.shape == (n, int(b3.n_basis_modes))
+                    except Exception as e3:
+                        from sklearn.exceptions import NotFittedError as _NF
+                        ok3 = isinstance(e3, _NF)
+                    if not ok3:
+                        chk.violation("impl", "basis-inconsistent-after-rejected-fit", f"{kind}: after a rejected fit (too few examples) the basis reports "
+                                      f"{b3.n_basis_modes} modes but answers with shape {np.shape(b3.basis_matrix_)}", case)
+            except Exception:
+                pass
         # ---- the caller's later edits of ITS training array must not reach the fitted basis
         if kind != "Custom":
             try:
